@@ -592,7 +592,43 @@ func (c *panicCtx) dischargePopulate(rule, key string, pn *ssa.Panic) {
 			detail += " populate called from " + fnName(site.Parent()) + ";"
 		}
 	}
-	r.check(ok, rule, key, p.instrPos(pn), "unreachable: every Hash method packs constant widths that sum to <= 32 bits", "a Hash method can overflow the 32-bit mask:"+detail)
+	// the argument above is about widths only: populate must not branch on the VALUE it is given
+	// (Week.Hash passes the ISO week-year, which is -1, i.e. a huge uint32, for 0000-01-01)
+	if pop != nil && len(pop.Params) >= 2 {
+		val := pop.Params[1]
+		var dependsOn func(v ssa.Value, depth int) bool
+		dependsOn = func(v ssa.Value, depth int) bool {
+			if depth > 8 {
+				return false
+			}
+			v = strip(v)
+			if v == ssa.Value(val) {
+				return true
+			}
+			switch x := v.(type) {
+			case *ssa.BinOp:
+				return dependsOn(x.X, depth+1) || dependsOn(x.Y, depth+1)
+			case *ssa.UnOp:
+				return dependsOn(x.X, depth+1)
+			case *ssa.Convert:
+				return dependsOn(x.X, depth+1)
+			case *ssa.Phi:
+				for _, e := range x.Edges {
+					if dependsOn(e, depth+1) {
+						return true
+					}
+				}
+			}
+			return false
+		}
+		for _, b := range pop.Blocks {
+			if iff, isIf := b.Instrs[len(b.Instrs)-1].(*ssa.If); isIf && dependsOn(iff.Cond, 0) {
+				ok = false
+				detail += " populate branches on the value it is given (" + p.instrPos(iff) + "): values outside the declared maximum occur for valid dates;"
+			}
+		}
+	}
+	r.check(ok, rule, key, p.instrPos(pn), "unreachable: every Hash method packs constant widths that sum to <= 32 bits, and populate decides on widths only", "a Hash method can reach the panic of the 32-bit mask:"+detail)
 }
 
 func (c *panicCtx) dischargeSwitch(rule, key string, f *ssa.Function, pn *ssa.Panic, lo, hi int64, acc string) {
